@@ -369,6 +369,7 @@ def run_campaign(tier, seed, jobs, only_runs=None):
             plans += _plan.spine(tree, seed)
         else:
             plans += _plan.singles(tree, seed)
+        plans += _plan.cli_shape_plans(tree, seed, tier)
         plans += _plan.matrix_plans(tree, seed, tier)
         plans += _plan.sweep_plans(tree, seed, tier)
         if only_runs:
